@@ -11,9 +11,9 @@ From LCC Require Import Base.Util Model.Proj Model.Sched Model.Graph Model.Fixtu
    and on every test of the suite, the session teardown on the end of every top-level suite) — directly or through a chain of
    dependencies, has been taken, has finished and has been acknowledged, in that order, strictly before.
    Hence a fixture is evaluated before any consumer starts, and torn down after the last consumer has finished, whether
-   the consumers passed, failed or were skipped. *)
+   the consumers passed, failed or were skipped — also after a keyboard interrupt (no hypothesis on the moves). *)
 Theorem C03_setup_before_consumers_teardown_after : forall g n sof t e, dep_path g t e ->
-  forall ms1 md ms2 s, 1 <= n -> no_interrupt ms1 ->
+  forall ms1 md ms2 s, 1 <= n ->
   run g n sof (init g n) (ms1 ++ MTake t md :: ms2) = Some s ->
   occurs (is_take e) ms1 /\ occurs (is_finish e) ms1 /\ occurs (is_main e) ms1.
 Proof. exact take_after_transitive_dependencies. Qed.
